@@ -168,6 +168,11 @@ func c03ForIn(w *run.Worker) {
 			return []*rt.Node{rt.ForIn("u", rt.List(I(7), I(8)), rt.Block(rt.If(rt.Bin("==", Id("u"), I(8)), rt.Block(rt.Break())), rt.Call("p", Id("v"), Id("u")))), rt.Call("p", Id("u"))}
 		},
 		func() []*rt.Node { return []*rt.Node{rt.Assign("=", Id("v"), I(100)), rt.Call("p", Id("v"))} },
+		// a body-local read before it is assigned: it does not survive from the previous iteration
+		func() []*rt.Node { return []*rt.Node{rt.Call("p", Id("w"), Id("v")), rt.Assign("=", Id("w"), Id("v"))} },
+		func() []*rt.Node {
+			return []*rt.Node{rt.If(rt.Bin("==", Id("w"), rt.Nil()), rt.Block(rt.Call("p", I(1))), rt.Block(rt.Call("p", I(2), Id("w")))), rt.Assign("=", Id("w"), I(5)), rt.Assign("=", Id("w2"), I(6))}
+		},
 		func() []*rt.Node { return nil },
 	}
 	for _, it := range c03Iterables() {
@@ -445,7 +450,7 @@ func init() {
 		ID:    "C03",
 		Level: "model_checking",
 		Rule: "(A) every ordered pair of 26 condition representatives (all truthiness classes; literals, variables, point keys, a tag, an absent name) in if/elif/else, and each as for-condition; " +
-			"(B) 17 iterables (lists, strings incl. multi-byte, 0/1/2-key maps, point values, non-iterables) x 4 loop-variable names x 9 bodies (continue, break, nested loop, shadowing, mutation during iteration); " +
+			"(B) 17 iterables (lists, strings incl. multi-byte, 0/1/2-key maps, point values, non-iterables) x 4 loop-variable names (new, an outer variable, `_`, a point key) x 11 bodies (continue, break, nested loop, shadowing, mutation during iteration, body-locals read before assignment); " +
 			"(C) every program of total size <=3 (thorough <=4) statements, nesting <=3, over {probe(x,y), probe(pk,_), x=x+1, y=7, x+=10, pk=x, pk=nil, n0+=5 (a name that is only a point key), x=x/n0 (a run-time error while n0 is 0), break, continue} x if / if-else / if-elif-else x the 12 three-clause for shapes (init absent|y=0, condition absent|x<2, post absent|x=x+1|z=x) x 3 for-in forms, final probe of x, y, pk, z, n0; " +
 			"ordered probe trace + final point compared with the reference interpreter; map iteration order is tried in both orders; after EVERY program a name-reading canary script (loaded once) runs with no load in between and must see only the point's keys and nil",
 		Assumptions: []string{"non-terminating programs are cut by a signal after 3000 polls (real) / 40000 steps (reference) and compared as trace prefixes"},
